@@ -112,6 +112,10 @@ func genBasketCreate(w *World) sdk.Msg {
 		id, _ := w.pickClassID("class")
 		classes = append(classes, id)
 	}
+	if len(classes) > 0 && w.offState("ghostclass") {
+		// a well-formed id of a class that does not exist, after existing ones
+		classes = append(classes, pickOf(w, "ghost", []string{ct + "77", ct + "999", "C99", ct + "01"}))
+	}
 	name := pickOf(w, "name", basketNames)
 	if w.chance("?fresh", 40) {
 		name = fmt.Sprintf("B%d", 100+w.StepIdx)
@@ -262,6 +266,11 @@ func genTake(w *World) sdk.Msg {
 	}
 	if w.chance("?badamt", 3) {
 		amt = pickOf(w, "bad", []string{"0", "-1", "1.5", "", "+7", "007"})
+	}
+	if w.chance("?oddint", 6) {
+		// spellings that integer parsers may read in another base
+		amt = pickOf(w, "odd", []string{"010", "0100", "0777", "0x10", "0b101", "0o17", "1_000", "00010"})
+		w.Flags["take-amount-odd-integer-spelling"] = true
 	}
 	m := &baskettypes.MsgTake{Owner: w.AddrStr("ostr", owner), BasketDenom: denom, Amount: amt}
 	retire := w.chance("?retire", 50)
@@ -612,6 +621,26 @@ func genSendFromPool(w *World) sdk.Msg {
 
 // contentHashPool returns a small pool of valid content hashes (raw and graph).
 func (w *World) contentHash(label string) *data.ContentHash {
+	// siblings: the same digest bytes as the previous hash of this step with another
+	// extension or type (different content hashes, different IRIs)
+	if w.lastDigest != nil && w.lastDigestStep == w.StepIdx && w.chance(label+"?sibling", 25) {
+		h := append([]byte(nil), w.lastDigest...)
+		if w.chance(label+"?sibgraph", 30) {
+			return &data.ContentHash{Graph: &data.ContentHash_Graph{Hash: h, DigestAlgorithm: 1, CanonicalizationAlgorithm: 1}}
+		}
+		return &data.ContentHash{Raw: &data.ContentHash_Raw{Hash: h, DigestAlgorithm: 1, FileExtension: pickOf(w, label+"sibext", []string{"pdf", "csv", "json", "rdf", "txt"})}}
+	}
+	ch := w.contentHashPool(label)
+	if ch.Raw != nil {
+		w.lastDigest = ch.Raw.Hash
+	} else {
+		w.lastDigest = ch.Graph.Hash
+	}
+	w.lastDigestStep = w.StepIdx
+	return ch
+}
+
+func (w *World) contentHashPool(label string) *data.ContentHash {
 	n := 6
 	if w.Profile != nil && w.Profile.HashPool > 0 {
 		n = w.Profile.HashPool
@@ -624,7 +653,7 @@ func (w *World) contentHash(label string) *data.ContentHash {
 	if i%2 == 0 {
 		return &data.ContentHash{Graph: &data.ContentHash_Graph{Hash: h, DigestAlgorithm: 1, CanonicalizationAlgorithm: 1}}
 	}
-	return &data.ContentHash{Raw: &data.ContentHash_Raw{Hash: h, DigestAlgorithm: 1, FileExtension: pickOf(w, label+"ext", []string{"pdf", "csv", "json"})}}
+	return &data.ContentHash{Raw: &data.ContentHash_Raw{Hash: h, DigestAlgorithm: 1, FileExtension: pickOf(w, label+"ext", []string{"pdf", "csv", "json", "rdf"})}}
 }
 
 func (w *World) graphHash(label string) *data.ContentHash_Graph {
